@@ -31,6 +31,7 @@ pub assume_specification[ u8::overflowing_add ](a: u8, b: u8) -> (r: (u8, bool))
     ensures r.0 as int == (a + b) % 256, r.1 == (a + b >= 256);
 broadcast use axiom_seal_len, axiom_open_unique, lemma_len0_empty, axiom_v4_len, axiom_v6_len, axiom_string_utf8, axiom_blake3_kdf_len, axiom_blake3_hash_len, axiom_hkdf_len, lemma_shr6, lemma_and127, lemma_and63;
 
+//@include ../common_cipher.rs
 //@include ../parts/addr.rs
 //@include ../parts/sschunk.rs
 //@include ../parts/sstcp.rs
